@@ -80,23 +80,23 @@ type vAcct struct {
 }
 
 type vRow struct {
-	Tr     int              `json:"tr"`
-	N      int              `json:"n"`
-	Ev     string           `json:"ev"`
-	Kind   string           `json:"kind"`
-	ID     int              `json:"id"`
-	List   string           `json:"list"`
-	IDs    []int            `json:"ids"`
-	Cut    int64            `json:"cut"`    // Truncate/Probe: bytes of the last record that were kept
-	RecLen int64            `json:"reclen"` // Truncate/Probe: length of the last record
-	Err    string           `json:"err"`
-	Inval  []int            `json:"inval"` // Invalidate: returned bitmask (abstract ids; 1000+x for foreign id x)
-	Obs    []vObs           `json:"obs"`
-	Count  uint64           `json:"count"`
-	Flen   int64            `json:"flen"` // os.Stat size of the cache file
-	Acct   vAcct            `json:"acct"`
-	Dict   map[string]vDict `json:"dict"` // Open row: the concretisation of the abstract lists
-	Rids   []uint64         `json:"rids,omitempty"` // Open row: real stream ids
+	Tr     int               `json:"tr"`
+	N      int               `json:"n"`
+	Ev     string            `json:"ev"`
+	Kind   string            `json:"kind"`
+	ID     int               `json:"id"`
+	List   string            `json:"list"`
+	IDs    []int             `json:"ids"`
+	Cut    int64             `json:"cut"`    // Truncate/Probe: bytes of the last record that were kept
+	RecLen int64             `json:"reclen"` // Truncate/Probe: length of the last record
+	Err    string            `json:"err"`
+	Inval  []int             `json:"inval"` // Invalidate: returned bitmask (abstract ids; 1000+x for foreign id x)
+	Obs    []vObs            `json:"obs"`
+	Count  uint64            `json:"count"`
+	Flen   int64             `json:"flen"` // os.Stat size of the cache file
+	Acct   vAcct             `json:"acct"`
+	Dict   map[string]vDict  `json:"dict"`           // Open row: the concretisation of the abstract lists
+	Rids   []uint64          `json:"rids,omitempty"` // Open row: real stream ids
 	Desc   map[string]string `json:"desc,omitempty"`
 }
 
@@ -299,31 +299,31 @@ func vMakeList(rng *rand.Rand, kind string, huge bool, allowEmpty bool) ([]index
 // ---------------------------------------------------------------- driver
 
 type vRun struct {
-	b      vBehaviour
-	rng    *rand.Rand
-	dir    string
-	path   string
-	rids   [3]uint64
-	t0     [3]time.Time
-	lists  map[string][]index.Data
-	cf     *cacheFile
-	rows   []vRow
-	n      int
-	tailID int // abstract id of the stream whose record is the last one in the file, -1 if unknown
-	probes string
-	stat   *vStats
+	b        vBehaviour
+	rng      *rand.Rand
+	dir      string
+	path     string
+	rids     [3]uint64
+	t0       [3]time.Time
+	lists    map[string][]index.Data
+	cf       *cacheFile
+	rows     []vRow
+	n        int
+	tailID   int // abstract id of the stream whose record is the last one in the file, -1 if unknown
+	probes   string
+	stat     *vStats
 	fullDone bool
 }
 
 type vStats struct {
 	sync.Mutex
 	Traces, Rows, Probes, ProbesPartial, Truncs, OpenFailures, OpErrors, Skipped int
-	CompactStore, CompactLoad, BigRows                                          int
-	Ops                                                                         map[string]int
-	Shapes                                                                      map[string]int
-	RecLens                                                                     map[int64]bool
-	Trans                                                                       map[string]bool
-	ChunkRows                                                                   []int
+	CompactStore, CompactLoad, BigRows                                           int
+	Ops                                                                          map[string]int
+	Shapes                                                                       map[string]int
+	RecLens                                                                      map[int64]bool
+	Trans                                                                        map[string]bool
+	ChunkRows                                                                    []int
 }
 
 // counters over the rows of one finished trace (measured coverage, no verdicts)
